@@ -6,6 +6,7 @@ import (
 	"strings"
 
 	"github.com/GuanceCloud/platypus/pkg/ast"
+	"github.com/GuanceCloud/platypus/pkg/engine/runtime"
 	"github.com/GuanceCloud/platypus/pkg/errchain"
 	"github.com/GuanceCloud/platypus/pkg/token"
 	"github.com/spf13/cast"
@@ -564,6 +565,11 @@ func RunMapInitExpr(ctx *Task, expr *ast.MapLiteral) *errchain.PlError {
 // }
 
 func RunIndexExprGet(ctx *Task, expr *ast.IndexExpr) *errchain.PlError {
+	if expr.Obj == nil {
+		return NewRunError(ctx, "index expression without object has no value",
+			expr.LBracket[0])
+	}
+
 	key := expr.Obj.Name
 
 	varb, err := ctx.GetKey(key)
@@ -915,6 +921,9 @@ func RunAssignmentExpr(ctx *Task, expr *ast.AssignmentExpr) *errchain.PlError {
 	}
 
 	for i, e := range expr.LHS {
+		if e.NodeType == ast.TypeIndexExpr && e.IndexExpr().Obj == nil {
+			return NewRunError(ctx, "unsupported assignment target", expr.OpPos)
+		}
 		switch expr.Op {
 		case ast.SUBEQ,
 			ast.ADDEQ,
@@ -1108,90 +1117,41 @@ func RunSliceExpr(ctx *Task, expr *ast.SliceExpr) *errchain.PlError {
 
 	switch start.T {
 	case ast.Invalid:
-		if stepInt > 0 {
-			startInt = 0
-		} else {
-			startInt = length - 1
-		}
 	case ast.Int:
 		startInt = cast.ToInt(start.V)
-		if startInt < 0 {
-			startInt = length + startInt
-		}
 	default:
 		return NewRunError(ctx, "start type must be integer", expr.Start.StartPos())
 	}
 
 	switch end.T {
 	case ast.Invalid:
-		if stepInt > 0 {
-			endInt = length
-		} else {
-			endInt = -1
-		}
 	case ast.Int:
 		endInt = cast.ToInt(end.V)
-		if endInt < 0 {
-			endInt = length + endInt
-		}
 	default:
 		return NewRunError(ctx, "end type must be integer", expr.End.StartPos())
 
 	}
 
+	first, count := runtime.SliceRange(length, startInt, endInt, stepInt,
+		start.T != ast.Invalid, end.T != ast.Invalid)
+
 	switch obj.T {
 	case ast.String:
 		str := obj.V.(string)
-		if stepInt > 0 {
-			result := ""
-			if startInt < 0 {
-				startInt = 0
-			}
-			for i := startInt; i < endInt && i < length; i += stepInt {
-				result += string(str[i])
-			}
-			ctx.Regs.ReturnAppend(V{result, ast.String})
-			return nil
-		} else {
-			result := ""
-			if startInt > length-1 {
-				startInt = length - 1
-			}
-			for i := startInt; i > endInt && i >= 0; i += stepInt {
-				result += string(str[i])
-			}
-			ctx.Regs.ReturnAppend(V{result, ast.String})
-			return nil
+		result := make([]byte, 0, count)
+		for k := 0; k < count; k++ {
+			result = append(result, str[first+k*stepInt])
 		}
+		ctx.Regs.ReturnAppend(V{string(result), ast.String})
+		return nil
 	default:
 		list := obj.V.([]any)
-		if stepInt > 0 {
-			if startInt < 0 {
-				startInt = 0
-			}
-			if endInt > length {
-				endInt = length
-			}
-			result := make([]any, 0, (endInt-startInt+stepInt-1)/stepInt)
-			for i := startInt; i < endInt; i += stepInt {
-				result = append(result, list[i])
-			}
-			ctx.Regs.ReturnAppend(V{result, ast.List})
-			return nil
-		} else {
-			if startInt > length-1 {
-				startInt = length - 1
-			}
-			if endInt < 0 {
-				endInt = -1
-			}
-			result := make([]any, 0, (startInt-endInt-stepInt-1)/(-stepInt))
-			for i := startInt; i > endInt; i += stepInt {
-				result = append(result, list[i])
-			}
-			ctx.Regs.ReturnAppend(V{result, ast.List})
-			return nil
+		result := make([]any, 0, count)
+		for k := 0; k < count; k++ {
+			result = append(result, list[first+k*stepInt])
 		}
+		ctx.Regs.ReturnAppend(V{result, ast.List})
+		return nil
 	}
 }
 func typePromotion(l ast.DType, r ast.DType) ast.DType {
